@@ -77,7 +77,8 @@ class BuiltinBroachingCodeGenerator(BroachingCodeGenerator):
 
     def produce_code(self, signature: Signature, closure_name: str) -> tuple[str, Mapping[str, object]]:
         builder = CodeBuilder()
-        namespace = BuiltinCascadeNamespace(occupied=signature.parameters.keys())
+        # the closure name is occupied too: a nested coercer with the same name would be shadowed by the ``def``
+        namespace = BuiltinCascadeNamespace(occupied={*signature.parameters.keys(), closure_name})
         state = self._create_state(namespace=namespace)
 
         namespace.add_outer_constant("_closure_signature", signature)
